@@ -952,6 +952,35 @@ fn witness_spec() -> (NodeSpec, Size<AvailableSpace>) {
     (root, Size::MAX_CONTENT)
 }
 
+/// A {height 20, margin-bottom -10} followed by B {margin-top 20} whose first child C has margin-top -5 (height 10):
+/// the adjoining margins {-10, 20, -5} collapse to 20 - 10 = 10, so B belongs at y = 30
+fn witness2_spec() -> (NodeSpec, Size<AvailableSpace>) {
+    let lpa = LengthPercentageAuto::length;
+    let a = NodeSpec::leaf(Style {
+        display: Display::Block,
+        size: Size { width: Dimension::auto(), height: Dimension::length(20.0) },
+        margin: Rect { left: lpa(0.0), right: lpa(0.0), top: lpa(0.0), bottom: lpa(-10.0) },
+        ..Default::default()
+    });
+    let c = NodeSpec::leaf(Style {
+        display: Display::Block,
+        size: Size { width: Dimension::auto(), height: Dimension::length(10.0) },
+        margin: Rect { left: lpa(0.0), right: lpa(0.0), top: lpa(-5.0), bottom: lpa(0.0) },
+        ..Default::default()
+    });
+    let b = NodeSpec {
+        style: Style { display: Display::Block, margin: Rect { left: lpa(0.0), right: lpa(0.0), top: lpa(20.0), bottom: lpa(0.0) }, ..Default::default() },
+        ctx: None,
+        children: vec![c],
+    };
+    let root = NodeSpec {
+        style: Style { display: Display::Block, size: Size::from_lengths(100.0, 100.0), ..Default::default() },
+        ctx: None,
+        children: vec![a, b],
+    };
+    (root, Size::MAX_CONTENT)
+}
+
 fn print_findings(idx: u64, fs: &[Finding]) {
     for f in fs.iter().take(4) {
         match f.known {
@@ -1196,6 +1225,19 @@ pub fn main(args: &[String]) {
             if let Some((t, b)) = laid.reported_sets(1, 100.0) {
                 println!("WITNESS child_sets={:?} {:?}", t, b);
             }
+            let mut st = Stats::default();
+            print_findings(0, &check_tree(&spec, avail, &mut st));
+        }
+        "witness2" => {
+            let (spec, avail) = witness2_spec();
+            let mut t: TaffyTree<Ctx> = TaffyTree::new();
+            t.disable_rounding();
+            let mut ids = vec![];
+            let root = treegen::build(&mut t, &spec, &mut ids);
+            treegen::compute(&mut t, root, avail);
+            let a = t.unrounded_layout(ids[1]);
+            let b = t.unrounded_layout(ids[2]);
+            println!("WITNESS2 a_bottom={} b_y={} expected_b_y=30", a.location.y + a.size.height, b.location.y);
             let mut st = Stats::default();
             print_findings(0, &check_tree(&spec, avail, &mut st));
         }
